@@ -5,6 +5,8 @@ From Coq Require Import List NArith Bool Arith Lia Permutation.
 Import ListNotations.
 Require Import UPV.Model.Clone.
 
+Ltac splits := repeat match goal with |- _ /\ _ => split end.
+
 (* ------------------------------------------------------------------ lists *)
 Lemma NoDup_app_iff {A} (l1 l2 : list A) :
   NoDup (l1 ++ l2) <-> NoDup l1 /\ NoDup l2 /\ (forall x, In x l1 -> ~ In x l2).
@@ -18,6 +20,12 @@ Proof.
     + intros (H1 & H2 & H3). inversion H1 as [|? ? Hn Hd]; subst. constructor.
       * intros Hi. apply in_app_or in Hi. destruct Hi as [Hi|Hi]; [tauto | apply (H3 a); auto].
       * apply IH. repeat split; auto.
+Qed.
+
+Lemma flat_map_ext_in' {A B} (f g : A -> list B) l : (forall a, In a l -> f a = g a) -> flat_map f l = flat_map g l.
+Proof.
+  induction l as [|x l IH]; simpl; intros H; [reflexivity|].
+  rewrite (H x) by (left; reflexivity). f_equal. apply IH. intros a Ha. apply H. right; exact Ha.
 Qed.
 
 Lemma set_nth_length {A} i (x : A) l : length (set_nth i x l) = length l.
@@ -206,20 +214,20 @@ Proof.
     apply Forall_app in Hb. destruct Hb as (Hb1 & Hb2).
     inversion Hb1 as [|? ? Ha Hb1']; subst.
     pose proof (sync_nest_spec h a n Ha Hd1 Hb1') as S1. cbv zeta in S1.
-    set (h1 := sync_nest h a n) in *.
+    remember (sync_nest h a n) as h1 eqn:Eh1. clear Eh1.
     destruct S1 as (L1 & A1 & D1 & B1 & P1 & F1).
     assert (Eo : owned h1 ar = owned h ar).
     { apply owned_ext. intros a' Ha'. pose proof (in_owned_self h ar a' Ha') as Hio.
       apply F1.
       - rewrite Forall_forall in Hb2. apply Hb2; exact Hio.
-      - intros ->. apply (Hdj a'); [left; reflexivity | exact Hio].
+      - intros E. apply (Hdj a'); [left; symmetry; exact E | exact Hio].
       - intros Hi. apply (Hdj a'); [right; exact Hi | exact Hio]. }
     assert (Hd2' : NoDup (owned h1 ar)) by (rewrite Eo; exact Hd2).
     assert (Hb2' : Forall (fun b => b < length h1) (owned h1 ar)).
     { rewrite Eo. eapply Forall_impl; [|exact Hb2]. simpl; intros; lia. }
     assert (Hl' : length nr = length ar) by lia.
     pose proof (IH nr h1 Hd2' Hb2' Hl') as S2. cbv zeta in S2.
-    set (h' := sync_nests h1 ar nr) in *.
+    remember (sync_nests h1 ar nr) as h' eqn:Eh'. clear Eh'.
     destruct S2 as (L2 & A2 & D2 & B2 & P2 & F2).
     (* nothing owned by ar in h1 is a or one of a's inner containers *)
     assert (Hsep : forall x, In x (a :: inner h1 a) -> ~ In x (owned h1 ar)).
@@ -293,7 +301,474 @@ Proof.
   - unfold abs. f_equal.
     + apply map_ext_in. exact Hf.
     + apply map_ext_in. intros a Ha. rewrite (Hn a Ha). apply abs_refs_ext. intros b Hb. apply (Hi a b Ha Hb).
-  - unfold footprint. f_equal. f_equal. apply flat_map_ext_in. intros a Ha. unfold inner. rewrite (Hn a Ha). reflexivity.
+  - unfold footprint. f_equal. f_equal. apply flat_map_ext_in'. intros a Ha. unfold inner. rewrite (Hn a Ha). reflexivity.
 Qed.
 
-Lemma flat_map_ext_in_local : True. Proof. exact I. Qed.
+(* ------------------------------------------------------------------ sync: in-place mutation implements the pure state *)
+Definition retag (p : pobj) (s : pstate) : pobj := {| o_scal := s_scal s; o_flat := o_flat p; o_nest := o_nest p |}.
+
+Lemma sync_spec h p s :
+  wf h p -> length (s_flat s) = length (o_flat p) -> length (s_nest s) = length (o_nest p) ->
+  let h' := sync h p s in
+  abs h' (retag p s) = s /\
+  wf h' (retag p s) /\
+  length h <= length h' /\
+  (forall b, In b (footprint h' (retag p s)) -> In b (footprint h p) \/ length h <= b) /\
+  (forall b, b < length h -> ~ In b (footprint h p) -> rd h' b = rd h b).
+Proof.
+  intros W Lf Ln. apply wf_wf' in W. destruct W as [Wd Wb]. cbv zeta. unfold sync.
+  apply NoDup_app_iff in Wd. destruct Wd as (Df & Do & Dj).
+  apply Forall_app in Wb. destruct Wb as (Bf & Bo).
+  remember (write_all h (o_flat p) (s_flat s)) as h0 eqn:E0.
+  assert (L0 : length h0 = length h) by (subst h0; apply write_all_length).
+  assert (R0 : forall b, ~ In b (o_flat p) -> rd h0 b = rd h b) by (intros; subst h0; apply write_all_other; assumption).
+  assert (Eo : owned h0 (o_nest p) = owned h (o_nest p)).
+  { apply owned_ext. intros a Ha. apply R0. intros Hi. apply (Dj a Hi). apply in_owned_self; exact Ha. }
+  assert (Do0 : NoDup (owned h0 (o_nest p))) by (rewrite Eo; exact Do).
+  assert (Bo0 : Forall (fun b => b < length h0) (owned h0 (o_nest p))) by (rewrite Eo, L0; exact Bo).
+  pose proof (sync_nests_spec (o_nest p) (s_nest s) h0 Do0 Bo0 Ln) as S. cbv zeta in S.
+  remember (sync_nests h0 (o_nest p) (s_nest s)) as h' eqn:E'. clear E'.
+  destruct S as (L & A & D & B & P & F). rewrite Eo in P, F. rewrite L0 in *.
+  assert (Rf : map (rd h') (o_flat p) = s_flat s).
+  { rewrite <- (write_all_read (o_flat p) h (s_flat s) Df Bf Lf). rewrite <- E0.
+    apply map_ext_in. intros a Ha. apply F.
+    - rewrite Forall_forall in Bf. apply Bf; exact Ha.
+    - apply Dj; exact Ha. }
+  split; [|split; [|split; [|split]]].
+  - unfold abs, retag; simpl. rewrite Rf, A. destruct s; reflexivity.
+  - apply wf_wf'. unfold wf', retag; simpl. split.
+    + apply NoDup_app_iff. repeat split; [exact Df | exact D |].
+      intros x Hx Hi. destruct (P _ Hi) as [Hi'|Hi']; [apply (Dj x Hx Hi') |].
+      rewrite Forall_forall in Bf. specialize (Bf _ Hx). lia.
+    + apply Forall_app. split; [|exact B]. eapply Forall_impl; [|exact Bf]. simpl; intros; lia.
+  - exact L.
+  - intros b Hb. apply in_footprint_iff in Hb. unfold retag in Hb; simpl in Hb. apply in_app_or in Hb.
+    destruct Hb as [Hb|Hb].
+    + left. apply in_footprint_iff. apply in_or_app; left; exact Hb.
+    + destruct (P _ Hb) as [Hx|Hx]; [left | right; exact Hx]. apply in_footprint_iff. apply in_or_app; right; exact Hx.
+  - intros b Hbl Hbn.
+    assert (N1 : ~ In b (o_flat p)) by (intros Hi; apply Hbn, in_footprint_iff, in_or_app; left; exact Hi).
+    assert (N2 : ~ In b (owned h (o_nest p))) by (intros Hi; apply Hbn, in_footprint_iff, in_or_app; right; exact Hi).
+    rewrite F by assumption. apply R0; exact N1.
+Qed.
+
+(* a problem whose containers are disjoint from p's does not see p's mutations *)
+Lemma sync_frame h p s q :
+  wf h p -> wf h q -> disjoint (footprint h p) (footprint h q) ->
+  length (s_flat s) = length (o_flat p) -> length (s_nest s) = length (o_nest p) ->
+  let h' := sync h p s in
+  abs h' q = abs h q /\ wf h' q /\ disjoint (footprint h' (retag p s)) (footprint h' q).
+Proof.
+  intros Wp Wq Dj Lf Ln. cbv zeta.
+  destruct (sync_spec h p s Wp Lf Ln) as (_ & _ & L & P & F).
+  remember (sync h p s) as h' eqn:E'. clear E'.
+  destruct Wq as [Wqd Wqb].
+  assert (R : forall b, In b (footprint h q) -> rd h' b = rd h b).
+  { intros b Hb. apply F.
+    - rewrite Forall_forall in Wqb. apply Wqb; exact Hb.
+    - intros Hi. apply (Dj b Hi Hb). }
+  destruct (abs_ext h h' q R) as [Ea Ef]. split; [exact Ea|]. split.
+  - unfold wf. rewrite Ef. split; [exact Wqd|]. eapply Forall_impl; [|exact Wqb]. simpl; intros; lia.
+  - rewrite Ef. intros b Hb Hq. destruct (P _ Hb) as [Hx|Hx]; [apply (Dj b Hx Hq)|].
+    rewrite Forall_forall in Wqb. specialize (Wqb _ Hq). lia.
+Qed.
+
+(* ------------------------------------------------------------------ allocation *)
+Lemma map_rd_seq cs : forall h ext, map (rd (h ++ cs ++ ext)) (seq (length h) (length cs)) = cs.
+Proof.
+  induction cs as [|c cs IH]; intros h ext; simpl; [reflexivity|]. f_equal.
+  - apply rd_app_at.
+  - replace (h ++ c :: cs ++ ext) with ((h ++ [c]) ++ cs ++ ext) by (rewrite <- app_assoc; reflexivity).
+    replace (S (length h)) with (length (h ++ [c])) by (rewrite app_length; simpl; lia). apply IH.
+Qed.
+
+Lemma abs_refs_alloc l : forall h ext,
+  abs_refs (h ++ map snd l ++ ext) (combine (map fst l) (seq (length h) (length l))) = l.
+Proof.
+  induction l as [|[k c] l IH]; intros h ext; simpl; [reflexivity|]. f_equal.
+  - unfold abs_refs; simpl. rewrite rd_app_at. reflexivity.
+  - replace (h ++ c :: map snd l ++ ext) with ((h ++ [c]) ++ map snd l ++ ext) by (rewrite <- app_assoc; reflexivity).
+    replace (S (length h)) with (length (h ++ [c])) by (rewrite app_length; simpl; lia). apply IH.
+Qed.
+
+Lemma map_snd_combine {A B} (a : list A) (b : list B) : length a = length b -> map snd (combine a b) = b.
+Proof. revert b; induction a as [|x a IH]; intros [|y b] H; simpl in *; try discriminate; auto. f_equal. apply IH; lia. Qed.
+
+Lemma alloc_nests_spec : forall ls h h2 ns, alloc_nests h ls = (h2, ns) ->
+  (exists ext, h2 = h ++ ext) /\
+  map (fun a => abs_refs h2 (refs (rd h2 a))) ns = ls /\
+  NoDup (owned h2 ns) /\
+  Forall (fun b => length h <= b < length h2) (owned h2 ns).
+Proof.
+  induction ls as [|l r IH]; intros h h2 ns H; simpl in H.
+  - inversion H; subst. simpl. split; [exists []; rewrite app_nil_r; reflexivity|].
+    split; [reflexivity|]. split; constructor.
+  - unfold alloc_nest, alloc_refs in H.
+    remember (combine (map fst l) (seq (length h) (length l))) as r0 eqn:Er0.
+    remember ((h ++ map snd l) ++ [CRefs r0]) as h1 eqn:Eh1.
+    destruct (alloc_nests h1 r) as [h2' ar] eqn:Ea. inversion H; subst h2' ns. clear H.
+    destruct (IH _ _ _ Ea) as ([ext Eext] & A & D & B).
+    assert (Lh1 : length h1 = length h + length l + 1).
+    { subst h1. rewrite !app_length, map_length. simpl. lia. }
+    set (a := length (h ++ map snd l)) in *.
+    assert (Ea' : a = length h + length l) by (unfold a; rewrite app_length, map_length; reflexivity).
+    assert (Rp : forall b, b < length h1 -> rd h2 b = rd h1 b) by (intros; subst h2; apply rd_app_l; assumption).
+    assert (Ra1 : rd h1 a = CRefs r0) by (subst h1; unfold a; apply rd_app_at).
+    assert (Ra : rd h2 a = CRefs r0) by (rewrite Rp by lia; exact Ra1).
+    assert (Ei : inner h2 a = seq (length h) (length l)).
+    { unfold inner. rewrite Ra. simpl. subst r0. apply map_snd_combine. rewrite map_length, seq_length. reflexivity. }
+    split; [|split; [|split]].
+    + exists (map snd l ++ [CRefs r0] ++ ext). subst h2 h1. rewrite <- !app_assoc. reflexivity.
+    + simpl. f_equal; [|exact A]. rewrite Ra. simpl.
+      transitivity (abs_refs h1 r0).
+      * apply abs_refs_ext. intros b Hb. apply Rp. fold (inner h2 a) in Ei.
+        assert (Hb' : In b (seq (length h) (length l))).
+        { subst r0. rewrite map_snd_combine in Hb by (rewrite map_length, seq_length; reflexivity). exact Hb. }
+        apply in_seq in Hb'. lia.
+      * subst h1 r0. rewrite <- app_assoc. apply abs_refs_alloc.
+    + change (owned h2 (a :: ar)) with ((a :: inner h2 a) ++ owned h2 ar). rewrite Ei.
+      apply NoDup_app_iff. repeat split.
+      * constructor; [intros Hi; apply in_seq in Hi; lia | apply seq_NoDup].
+      * exact D.
+      * intros x Hx Hi. rewrite Forall_forall in B. specialize (B _ Hi).
+        destruct Hx as [Hx|Hx]; [subst; lia | apply in_seq in Hx; lia].
+    + change (owned h2 (a :: ar)) with ((a :: inner h2 a) ++ owned h2 ar). rewrite Ei.
+      assert (L2 : length h1 <= length h2) by (subst h2; rewrite app_length; lia).
+      apply Forall_app. split.
+      * constructor; [lia|]. apply Forall_forall. intros x Hx. apply in_seq in Hx. lia.
+      * eapply Forall_impl; [|exact B]. simpl; intros; lia.
+Qed.
+
+Lemma prefix_keeps h ext q : wf h q ->
+  abs (h ++ ext) q = abs h q /\ footprint (h ++ ext) q = footprint h q /\ wf (h ++ ext) q.
+Proof.
+  intros [Wd Wb].
+  assert (R : forall b, In b (footprint h q) -> rd (h ++ ext) b = rd h b).
+  { intros b Hb. apply rd_app_l. rewrite Forall_forall in Wb. apply Wb; exact Hb. }
+  destruct (abs_ext h (h ++ ext) q R) as [Ea Ef]. repeat split; auto.
+  - rewrite Ef; exact Wd.
+  - rewrite Ef. eapply Forall_impl; [|exact Wb]. simpl; intros. rewrite app_length; lia.
+Qed.
+
+(* clone(): same content, brand-new containers *)
+Lemma hclone_spec h p h' c : wf h p -> hclone h p = (h', c) ->
+  abs h' c = abs h p /\ abs h' p = abs h p /\ wf h' p /\ wf h' c /\ disjoint (footprint h' p) (footprint h' c).
+Proof.
+  intros W H. unfold hclone, alloc_cells in H.
+  remember (h ++ map (rd h) (o_flat p)) as h1 eqn:Eh1.
+  destruct (alloc_nests h1 (map (fun a => abs_refs h (refs (rd h a))) (o_nest p))) as [h2 ns] eqn:Ea.
+  inversion H; subst h' c. clear H.
+  destruct (alloc_nests_spec _ _ _ _ Ea) as ([ext Eext] & A & D & B).
+  assert (L1 : length h1 = length h + length (o_flat p)) by (subst h1; rewrite app_length, !map_length; reflexivity).
+  assert (E2 : h2 = h ++ (map (rd h) (o_flat p) ++ ext)) by (subst h2 h1; rewrite <- app_assoc; reflexivity).
+  destruct (prefix_keeps h (map (rd h) (o_flat p) ++ ext) p W) as (Eabs & Efp & Wp). rewrite <- E2 in *.
+  assert (Bc : Forall (fun b => length h <= b < length h2)
+                      (seq (length h) (length (map (rd h) (o_flat p))) ++ owned h2 ns)).
+  { apply Forall_app. split.
+    - apply Forall_forall. intros x Hx. apply in_seq in Hx. rewrite map_length in Hx.
+      assert (length h1 <= length h2) by (subst h2; rewrite app_length; lia). lia.
+    - eapply Forall_impl; [|exact B]. simpl; intros; lia. }
+  assert (Wc : wf h2 {| o_scal := o_scal p; o_flat := seq (length h) (length (map (rd h) (o_flat p))); o_nest := ns |}).
+  { apply wf_wf'. unfold wf'; simpl. split.
+    - apply NoDup_app_iff. repeat split; [apply seq_NoDup | exact D |].
+      intros x Hx Hi. apply in_seq in Hx. rewrite map_length in Hx. rewrite Forall_forall in B. specialize (B _ Hi). lia.
+    - eapply Forall_impl; [|exact Bc]. simpl; intros; lia. }
+  split; [|split; [exact Eabs | split; [exact Wp | split; [exact Wc|]]]].
+  - unfold abs; simpl. f_equal.
+    + rewrite E2. rewrite map_length. rewrite <- (map_length (rd h) (o_flat p)). apply map_rd_seq.
+    + exact A.
+  - intros b Hb Hc. destruct W as [_ Wb]. rewrite Efp in Hb. rewrite Forall_forall in Wb. specialize (Wb _ Hb).
+    apply in_footprint_iff in Hc. simpl in Hc. rewrite Forall_forall in Bc. specialize (Bc _ Hc). lia.
+Qed.
+
+(* ------------------------------------------------------------------ boolean well-formedness *)
+Lemma nodupb_NoDup l : nodupb l = true -> NoDup l.
+Proof.
+  induction l as [|x l IH]; simpl; intros H; [constructor|].
+  apply andb_true_iff in H. destruct H as [H1 H2]. constructor; [|apply IH; exact H2].
+  intros Hi. apply negb_true_iff in H1. assert (existsb (Nat.eqb x) l = true); [|congruence].
+  apply existsb_exists. exists x. split; [exact Hi | apply Nat.eqb_refl].
+Qed.
+
+Lemma wfb_wf h p : wfb h p = true -> wf h p.
+Proof.
+  unfold wfb, wf. intros H. apply andb_true_iff in H. destruct H as [H1 H2]. split; [apply nodupb_NoDup; exact H1|].
+  apply Forall_forall. intros x Hx. rewrite forallb_forall in H2. specialize (H2 _ Hx). apply Nat.ltb_lt; exact H2.
+Qed.
+
+(* ------------------------------------------------------------------ operations keep the number of attributes *)
+Definition same_shape (s t : pstate) : Prop :=
+  length (s_flat t) = length (s_flat s) /\ length (s_nest t) = length (s_nest s).
+
+Lemma shape_refl s : same_shape s s. Proof. split; reflexivity. Qed.
+Lemma shape_trans s t u : same_shape s t -> same_shape t u -> same_shape s u.
+Proof. intros [A B] [C D]; split; congruence. Qed.
+Lemma shape_set_flat s i c : same_shape s (set_flat s i c).
+Proof. split; simpl; [apply set_nth_length | reflexivity]. Qed.
+Lemma shape_set_nest s i l : same_shape s (set_nest s i l).
+Proof. split; simpl; [reflexivity | apply set_nth_length]. Qed.
+Lemma shape_set_scal s i v : same_shape s (set_scal s i v).
+Proof. split; reflexivity. Qed.
+
+Lemma add_user_type_shape chain : forall s s', add_user_type s chain = Some s' -> same_shape s s'.
+Proof.
+  induction chain as [|t rest IH]; simpl; intros s s' H.
+  - inversion H; subst. apply shape_refl.
+  - destruct (existsb (val_eqb t) (lst (flat s F_TYPES))); [inversion H; subst; apply shape_refl|].
+    destruct (has_name s (snd t)); [discriminate|].
+    destruct (add_user_type s rest) as [s1|] eqn:E; [|discriminate]. inversion H; subst.
+    eapply shape_trans; [apply (IH _ _ E) | apply shape_set_flat].
+Qed.
+
+Lemma add_types_shape chains : forall s, same_shape s (fst (add_types s chains)).
+Proof.
+  induction chains as [|c r IH]; simpl; intros s; [apply shape_refl|].
+  destruct (add_user_type s c) as [s'|] eqn:E; simpl; [|apply shape_refl].
+  eapply shape_trans; [apply (add_user_type_shape _ _ _ E) | apply IH].
+Qed.
+
+Lemma step_shape s o : same_shape s (fst (step s o)).
+Proof.
+  unfold step. destruct (o_pre o); simpl; [apply shape_refl|].
+  destruct (o_body o); unfold step_body.
+  - destruct (has_name s (snd f)); simpl; [apply shape_refl|].
+    eapply shape_trans; [|apply add_types_shape].
+    destruct default.
+    + eapply shape_trans; apply shape_set_flat.
+    + destruct (alookup ty _); [eapply shape_trans; apply shape_set_flat | apply shape_set_flat].
+  - destruct (has_name s (snd o0)); simpl; [apply shape_refl|].
+    eapply shape_trans; [apply shape_set_flat | apply add_types_shape].
+  - destruct (has_name s name); simpl; [apply shape_refl|].
+    eapply shape_trans; [apply shape_set_nest | apply add_types_shape].
+  - destruct is_true; simpl; [apply shape_refl | apply shape_set_flat].
+  - match goal with |- context [tstore_add ?a ?b ?c ?d] => destruct (tstore_add a b c d) as [[[effs asg] incdec] accepted] end. simpl.
+    eapply shape_trans; [eapply shape_trans|]; apply shape_set_nest.
+  - apply shape_set_nest.
+  - apply shape_set_flat.
+  - apply shape_set_flat.
+  - apply shape_set_flat.
+  - destruct (alookup name (nest s N_ACTIONS)); [|apply shape_refl].
+    match goal with |- context [tstore_add ?a ?b ?c ?d] => destruct (tstore_add a b c d) as [[[effs asg] incdec] accepted] end. simpl. apply shape_set_nest.
+  - apply shape_set_scal.
+Qed.
+
+(* ------------------------------------------------------------------ one call *)
+Lemma abs_lengths h p : length (s_flat (abs h p)) = length (o_flat p) /\ length (s_nest (abs h p)) = length (o_nest p).
+Proof. unfold abs; simpl. rewrite !map_length. split; reflexivity. Qed.
+
+Lemma hstep_spec h p q o h' p' out :
+  wf h p -> wf h q -> disjoint (footprint h p) (footprint h q) ->
+  hstep h p o = (h', p', out) ->
+  abs h' p' = fst (step (abs h p) o) /\ out = snd (step (abs h p) o) /\
+  abs h' q = abs h q /\ wf h' p' /\ wf h' q /\ disjoint (footprint h' p') (footprint h' q).
+Proof.
+  intros Wp Wq Dj H. unfold hstep in H.
+  pose proof (step_shape (abs h p) o) as [Sf Sn].
+  destruct (step (abs h p) o) as [s' out'] eqn:Es. simpl in *. inversion H; subst h' p' out. clear H.
+  rewrite map_length in Sf, Sn.
+  destruct (sync_spec h p s' Wp Sf Sn) as (A & W' & _ & _ & _).
+  destruct (sync_frame h p s' q Wp Wq Dj Sf Sn) as (Aq & Wq' & Dj').
+  unfold retag in *. splits; try assumption; reflexivity.
+Qed.
+
+Lemma disjoint_sym l1 l2 : disjoint l1 l2 -> disjoint l2 l1.
+Proof. intros H a H2 H1. exact (H a H1 H2). Qed.
+
+(* ------------------------------------------------------------------ two problems, any interleaving *)
+Definition Inv (w : world) (sp sc : pstate) : Prop :=
+  wf (w_heap w) (w_p w) /\ wf (w_heap w) (w_c w) /\
+  disjoint (footprint (w_heap w) (w_p w)) (footprint (w_heap w) (w_c w)) /\
+  abs (w_heap w) (w_p w) = sp /\ abs (w_heap w) (w_c w) = sc.
+
+Lemma wstep_inv w sp sc sd o w' out :
+  Inv w sp sc -> wstep w (sd, o) = (w', out) ->
+  match sd with
+  | SOrig => Inv w' (fst (step sp o)) sc /\ out = snd (step sp o)
+  | SClone => Inv w' sp (fst (step sc o)) /\ out = snd (step sc o)
+  end.
+Proof.
+  intros (Wp & Wc & Dj & Ap & Ac) H. unfold wstep in H. simpl in H. destruct sd.
+  - destruct (hstep (w_heap w) (w_p w) o) as [[h1 p1] out1] eqn:E. inversion H; subst w' out. clear H.
+    destruct (hstep_spec _ _ _ _ _ _ _ Wp Wc Dj E) as (A1 & O1 & A2 & W1 & W2 & D1).
+    subst sp sc. unfold Inv; simpl. splits; assumption.
+  - destruct (hstep (w_heap w) (w_c w) o) as [[h1 c1] out1] eqn:E. inversion H; subst w' out. clear H.
+    destruct (hstep_spec _ _ _ _ _ _ _ Wc Wp (disjoint_sym _ _ Dj) E) as (A1 & O1 & A2 & W1 & W2 & D1).
+    subst sp sc. unfold Inv; simpl. splits; try assumption. apply disjoint_sym; exact D1.
+Qed.
+
+Theorem wrun_sim : forall tr w sp sc, Inv w sp sc ->
+  Inv (fst (wrun w tr)) (fst (prun sp (proj SOrig tr))) (fst (prun sc (proj SClone tr))) /\
+  proj_out SOrig tr (snd (wrun w tr)) = snd (prun sp (proj SOrig tr)) /\
+  proj_out SClone tr (snd (wrun w tr)) = snd (prun sc (proj SClone tr)) /\
+  length (snd (wrun w tr)) = length tr.
+Proof.
+  induction tr as [|[sd o] r IH]; intros w sp sc I; simpl.
+  - splits; try reflexivity; apply I.
+  - destruct (wstep w (sd, o)) as [w1 out] eqn:E.
+    pose proof (wstep_inv _ _ _ _ _ _ _ I E) as S.
+    destruct (wrun w1 r) as [w2 outs] eqn:Er. simpl.
+    unfold proj in *. simpl. destruct sd; simpl.
+    + destruct S as [I1 O1]. specialize (IH w1 _ _ I1). rewrite Er in IH. simpl in IH.
+      destruct IH as (I2 & P1 & P2 & L).
+      destruct (step sp o) as [s1 o1]; simpl in *.
+      destruct (prun s1 _) as [s2 os] eqn:Ep; simpl in *.
+      splits; try assumption; [subst; f_equal; exact P1 | lia].
+    + destruct S as [I1 O1]. specialize (IH w1 _ _ I1). rewrite Er in IH. simpl in IH.
+      destruct IH as (I2 & P1 & P2 & L).
+      destruct (step sc o) as [s1 o1]; simpl in *.
+      destruct (prun s1 _) as [s2 os] eqn:Ep; simpl in *.
+      splits; try assumption; [subst; f_equal; exact P2 | lia].
+Qed.
+
+Lemma clone_world_inv h p : wf h p -> Inv (clone_world h p) (abs h p) (abs h p).
+Proof.
+  intros W. unfold clone_world. destruct (hclone h p) as [h' c] eqn:E.
+  destruct (hclone_spec _ _ _ _ W E) as (A1 & A2 & W1 & W2 & D). unfold Inv; simpl. splits; assumption.
+Qed.
+
+(* ---- the statements used by Props/C22.v *)
+
+(* clone() returns a problem with the same content, leaves the original as it was, shares no container *)
+Theorem clone_equal h p : wf h p ->
+  let w := clone_world h p in
+  abs (w_heap w) (w_c w) = abs h p /\ abs (w_heap w) (w_p w) = abs h p /\
+  wf (w_heap w) (w_p w) /\ wf (w_heap w) (w_c w) /\
+  disjoint (footprint (w_heap w) (w_p w)) (footprint (w_heap w) (w_c w)).
+Proof. intros W. destruct (clone_world_inv h p W) as (A & B & C & D & E). cbv zeta. splits; assumption. Qed.
+
+(* any interleaving of calls on the original and on the clone: each one evolves exactly as if it were alone *)
+Theorem clone_simulation h p tr : wf h p ->
+  let r := wrun (clone_world h p) tr in
+  abs (w_heap (fst r)) (w_p (fst r)) = fst (prun (abs h p) (proj SOrig tr)) /\
+  abs (w_heap (fst r)) (w_c (fst r)) = fst (prun (abs h p) (proj SClone tr)) /\
+  proj_out SOrig tr (snd r) = snd (prun (abs h p) (proj SOrig tr)) /\
+  proj_out SClone tr (snd r) = snd (prun (abs h p) (proj SClone tr)) /\
+  wf (w_heap (fst r)) (w_p (fst r)) /\ wf (w_heap (fst r)) (w_c (fst r)).
+Proof.
+  intros W. cbv zeta. destruct (wrun_sim tr _ _ _ (clone_world_inv h p W)) as ((Wp & Wc & _ & Ap & Ac) & P1 & P2 & _).
+  splits; assumption.
+Qed.
+
+Lemma proj_both sd ops : proj sd (both ops) = ops.
+Proof. unfold proj, both. induction ops as [|o r IH]; simpl; [reflexivity|]. destruct sd; simpl; f_equal; exact IH. Qed.
+
+(* the same calls on both: same outcome for every call, same content afterwards *)
+Theorem clone_same_outcomes h p ops : wf h p ->
+  let r := wrun (clone_world h p) (both ops) in
+  proj_out SClone (both ops) (snd r) = proj_out SOrig (both ops) (snd r) /\
+  proj_out SOrig (both ops) (snd r) = snd (prun (abs h p) ops) /\
+  abs (w_heap (fst r)) (w_c (fst r)) = abs (w_heap (fst r)) (w_p (fst r)) /\
+  abs (w_heap (fst r)) (w_p (fst r)) = fst (prun (abs h p) ops).
+Proof.
+  intros W. cbv zeta. destruct (clone_simulation h p (both ops) W) as (A1 & A2 & P1 & P2 & _). cbv zeta in *.
+  rewrite !proj_both in *. splits; congruence.
+Qed.
+
+(* what happens to one problem does not depend on what is done to the other *)
+Theorem clone_independent h p tr1 tr2 sd : wf h p -> proj sd tr1 = proj sd tr2 ->
+  let r1 := wrun (clone_world h p) tr1 in
+  let r2 := wrun (clone_world h p) tr2 in
+  proj_out sd tr1 (snd r1) = proj_out sd tr2 (snd r2) /\
+  match sd with
+  | SOrig => abs (w_heap (fst r1)) (w_p (fst r1)) = abs (w_heap (fst r2)) (w_p (fst r2))
+  | SClone => abs (w_heap (fst r1)) (w_c (fst r1)) = abs (w_heap (fst r2)) (w_c (fst r2))
+  end.
+Proof.
+  intros W E. cbv zeta.
+  destruct (clone_simulation h p tr1 W) as (A1 & A2 & P1 & P2 & _).
+  destruct (clone_simulation h p tr2 W) as (B1 & B2 & Q1 & Q2 & _). cbv zeta in *.
+  destruct sd; split; congruence.
+Qed.
+
+(* ------------------------------------------------------------------ == is reflexive, so equal content gives == *)
+Lemma val_eqb_refl v : val_eqb v v = true.
+Proof. unfold val_eqb. rewrite !N.eqb_refl. reflexivity. Qed.
+
+Lemma set_eqb_refl l : set_eqb l l = true.
+Proof.
+  unfold set_eqb. assert (H : forallb (fun x => existsb (val_eqb x) l) l = true).
+  { apply forallb_forall. intros x Hx. apply existsb_exists. exists x. split; [exact Hx | apply val_eqb_refl]. }
+  rewrite H. reflexivity.
+Qed.
+
+Lemma optN_eqb_refl o : optN_eqb o o = true.
+Proof. destruct o; simpl; [apply N.eqb_refl | reflexivity]. Qed.
+
+Lemma dict_eqb_refl d : dict_eqb d d = true.
+Proof.
+  unfold dict_eqb. rewrite Nat.eqb_refl.
+  assert (H : forallb (fun kv : N * N => optN_eqb (alookup (fst kv) d) (alookup (fst kv) d)) d = true).
+  { apply forallb_forall. intros x _. apply optN_eqb_refl. }
+  rewrite H. reflexivity.
+Qed.
+
+Lemma keyed_sets_eqb_refl {A} (f : A -> list val) l : keyed_sets_eqb f l l = true.
+Proof.
+  unfold keyed_sets_eqb. rewrite Nat.eqb_refl.
+  match goal with |- context [forallb ?g l] => assert (H : forallb g l = true) end.
+  { apply forallb_forall. intros x _. destruct (alookup (fst x) l); [apply set_eqb_refl | reflexivity]. }
+  rewrite H. reflexivity.
+Qed.
+
+Lemma acts_eqb_refl l : acts_eqb l l = true.
+Proof.
+  unfold acts_eqb.
+  match goal with |- context [forallb ?g l] => assert (H : forallb g l = true) end.
+  { apply forallb_forall. intros x Hx. apply existsb_exists. exists x. split; [exact Hx|].
+    unfold act_eqb. rewrite N.eqb_refl, keyed_sets_eqb_refl. reflexivity. }
+  rewrite H. reflexivity.
+Qed.
+
+Theorem peq_refl kind iv s : peq kind iv s s = true.
+Proof.
+  unfold peq. rewrite !N.eqb_refl, !set_eqb_refl, dict_eqb_refl, acts_eqb_refl, !keyed_sets_eqb_refl. reflexivity.
+Qed.
+
+(* ------------------------------------------------------------------ the two open findings, on the faithful model *)
+(* a problem with one instantaneous action (name 20) and nothing else *)
+Definition one_action_state : pstate :=
+  {| s_scal := [1; 0; 0; 0]%N;
+     s_flat := [CList []; CList []; CList [(7, 3)%N]; CDict []; CDict []; CDict []; CList []; CList [];
+                CList []; CList []; CList []; CDict []];
+     s_nest := [ [(20%N, CAct {| a_static := 30; a_sim := []; a_effs := [(0%N, [])]; a_asg := [(0%N, [])];
+                                 a_incdec := [(0%N, [])] |})]; []; []; []; [] ] |}.
+Definition an_effect : op :=
+  {| o_pre := None; o_body := OActEffect 20 0 {| e_id := 41; e_fl := 7; e_val := 50; e_kind := EAssign; e_skip := false |} |}.
+
+(* HTN: the problem above plus one method (name 70) whose single subtask (identifier 71) runs the action object.
+   After c = p.clone(), add_effect on the ORIGINAL's action is visible through the CLONE's methods. *)
+Lemma htn_methods_alias_original_actions :
+  exists h hp o,
+    wf h (h_prob hp) /\
+    let (h1, hc) := hclone_htn h hp in
+    let '(h2, _, out) := hstep h1 (h_prob hp) o in
+    out = Ok /\ methods_view h2 (h_methods hc) <> methods_view h1 (h_methods hc).
+Proof.
+  pose (hp0 := load one_action_state).
+  (* address of the action object: the only inner cell of the _actions list *)
+  pose (act_addr := match inner (fst hp0) (nth N_ACTIONS (o_nest (snd hp0)) 0) with a :: _ => a | [] => 0 end).
+  pose (h := fst hp0 ++ [CRefs [(71%N, act_addr)]; CRefs [(70%N, length (fst hp0))]]).
+  exists h, {| h_prob := snd hp0; h_methods := S (length (fst hp0)) |}, an_effect.
+  split; [apply wfb_wf; vm_compute; reflexivity|].
+  vm_compute. split; [reflexivity | discriminate].
+Qed.
+
+(* an original with INTERNAL aliasing (one action object reachable from two action lists, as when the same Action is
+   added to two agents of a MultiAgentProblem): clone() gives each list its own copy, and the same add_effect applied to
+   both problems then leaves them different.  [wf] is exactly what excludes this. *)
+Lemma aliased_original_diverges :
+  exists h p ops,
+    ~ NoDup (footprint h p) /\
+    let r := wrun (clone_world h p) (both ops) in
+    snd r = [Ok; Ok] /\
+    abs (w_heap (fst r)) (w_c (fst r)) <> abs (w_heap (fst r)) (w_p (fst r)).
+Proof.
+  (* cells: 0 = the action; 1 = first list (agent r1's actions), 2 = second list (agent r2's), both holding address 0 *)
+  exists [CAct {| a_static := 30; a_sim := []; a_effs := [(0%N, [])]; a_asg := [(0%N, [])]; a_incdec := [(0%N, [])] |};
+          CRefs [(20%N, 0)]; CRefs [(20%N, 0)]],
+         {| o_scal := [1; 0; 0; 0]%N; o_flat := []; o_nest := [1; 2] |}, [an_effect].
+  split.
+  - vm_compute. intros H. inversion H as [|? ? _ H1]; subst. inversion H1 as [|? ? _ H2]; subst.
+    inversion H2 as [|? ? Hn _]; subst. apply Hn. left; reflexivity.
+  - vm_compute. split; [reflexivity | discriminate].
+Qed.
